@@ -148,12 +148,23 @@ def r2_one_limiter(ctx):
 def r4_debt_lock(ctx):
     corpus = ctx.corpus
     rl = corpus.cls('utils', 'RateLimitedIO')
-    pairs = (('pause_reads', '_read_sleep_amortised', '_read_lock'), ('pause_writes', '_write_sleep_amortised', '_write_lock'))
-    for mname, field, lock in pairs:
+    fields_seen = []
+    for mname in ('pause_reads', 'pause_writes'):
         f = rl.methods.get(mname)
         if f is None:
             raise AnalysisError(f'C20.R4: RateLimitedIO.{mname} missing')
         ctx.analysed(f)
+        # roles by structure: the lock is what the method's `with self.<lock>:` takes, the debt field is the attribute stored inside it
+        withs = [w for w in walk_local(f.node) if isinstance(w, ast.With) and any((dotted(it.context_expr) or '').startswith('self.') for it in w.items)]
+        if not withs:
+            ctx.fail('C20.R4', f'{func_label(f)}|debt-under-lock', loc(f, f.node), f'{mname}: no `with self.<lock>:` section - the debt is updated without a lock')
+            continue
+        lock = next(dotted(it.context_expr) for it in withs[0].items if (dotted(it.context_expr) or '').startswith('self.'))[5:]
+        stored = [t.attr for a in ast.walk(f.node) if isinstance(a, (ast.Assign, ast.AugAssign)) for t in (a.targets if isinstance(a, ast.Assign) else [a.target]) if isinstance(t, ast.Attribute) and isinstance(t.value, ast.Name) and t.value.id == 'self']
+        if not stored:
+            raise AnalysisError(f'C20.R4: no debt field stored in RateLimitedIO.{mname}')
+        field = max(set(stored), key=stored.count)
+        fields_seen.append(field)
 
         def under_lock(n):
             for a in ancestors(n):
@@ -183,6 +194,12 @@ def r4_debt_lock(ctx):
         # accumulation: += seconds
         pname = f.node.args.args[1].arg if len(f.node.args.args) > 1 else None
         acc = [a for a in walk_local(f.node) if isinstance(a, ast.AugAssign) and isinstance(a.op, ast.Add) and isinstance(a.target, ast.Attribute) and a.target.attr == field and isinstance(a.value, ast.Name) and a.value.id == pname]
+        # ... or `debt = min(debt + seconds, LIMIT)` / `debt = debt + seconds`
+        for a in walk_local(f.node):
+            if isinstance(a, ast.Assign) and any(isinstance(t, ast.Attribute) and t.attr == field for t in a.targets):
+                for b_ in ast.walk(a.value):
+                    if isinstance(b_, ast.BinOp) and isinstance(b_.op, ast.Add) and {type(b_.left), type(b_.right)} == {ast.Attribute, ast.Name} and any(isinstance(x, ast.Attribute) and x.attr == field for x in (b_.left, b_.right)) and any(isinstance(x, ast.Name) and x.id == pname for x in (b_.left, b_.right)):
+                        acc.append(a)
         reassigned = [a for a in ast.walk(f.node) if isinstance(a, ast.Name) and a.id == pname and isinstance(a.ctx, ast.Store)]
         ctx.check(
             not reassigned,
@@ -197,7 +214,7 @@ def r4_debt_lock(ctx):
     init = rl.methods['__init__']
     others = [m for n, m in rl.methods.items() if n not in ('__init__', 'pause_reads', 'pause_writes')]
     for m in others:
-        bad = [a for a in ast.walk(m.node) if isinstance(a, ast.Attribute) and a.attr in ('_read_sleep_amortised', '_write_sleep_amortised')]
+        bad = [a for a in ast.walk(m.node) if isinstance(a, ast.Attribute) and a.attr in set(fields_seen)]
         ctx.check(not bad, 'C20.R4', f'{func_label(m)}|debt-not-touched-elsewhere', loc(m, m.node), f'{m.name} does not touch the debt fields', f'{m.name} touches the debt fields outside their lock')
 
 
